@@ -129,6 +129,17 @@ theorem bank_pass_never_fails (P : Params) (h : Nat) (rates avgs : TMap) (batche
     ∃ s', recordPegRequests P h rates avgs batches bank bh s = .ok () s' :=
   recordPegRequests_never_fails P h rates avgs batches bank bh s hkeys hconv hbank hrow
 
+/-- the same with the natural hypothesis: the batches that joined the pass have distinct entry
+    hashes (the holding table has one row per entry: `C06.held_at_most_once`) -/
+theorem bank_pass_never_fails_distinct_entries (P : Params) (h : Nat) (rates avgs : TMap) (batches : List TxEntry)
+    (bank : Nat) (bh : Int) (s : DB)
+    (hdist : (batches.map (·.hash)).Nodup)
+    (hconv : ∀ r ∈ pegRequests P h rates avgs batches, validTicker P r.tx.conversion = true ∧ validTicker P r.tx.inType = true)
+    (hbank : bank ≤ maxInt64)
+    (hrow : bh ≥ (P.act.v4 : Int) → s.bank.any (·.height == bh) = true) :
+    ∃ s', recordPegRequests P h rates avgs batches bank bh s = .ok () s' :=
+  recordPegRequests_never_fails P h rates avgs batches bank bh s (pegRequests_no_dup P h rates avgs batches hdist) hconv hbank hrow
+
 /-- with distinct keys no request is ever paid more than the bank -/
 theorem no_request_paid_more_than_the_bank (bank : Nat) (reqs : List (TxKey × Nat)) (hb : bank ≤ maxUint64)
     (hn : (reqs.map (·.1)).Nodup) : ∀ p ∈ payouts bank reqs, p.2 ≤ bank :=
@@ -148,3 +159,4 @@ end Pegnet.C16
 #print axioms Pegnet.C16.bank_pass_pays_and_refunds_exactly
 #print axioms Pegnet.C16.bank_pass_never_fails
 #print axioms Pegnet.C16.no_request_paid_more_than_the_bank
+#print axioms Pegnet.C16.bank_pass_never_fails_distinct_entries
